@@ -243,3 +243,19 @@ Proof.
   - intros C. apply H. inversion C. reflexivity.
   - discriminate.
 Qed.
+
+(* ---------------------------------------------------------------- the dirty flag of a parsed archive *)
+(* unconditional: whatever TextArchive::from_archive / from_bytes accepts is clean (C07: "the dirty flag is clear on a ...
+   parsed archive") *)
+Theorem from_archive_is_clean : forall fmt a t, TextFormat.from_archive fmt a = Ok t -> t_dirty t = false.
+Proof.
+  intros fmt a t. unfold TextFormat.from_archive.
+  destruct (read_title fmt (data_fuel a) a) as [[title|e|k] p]; cbn [bind]; try discriminate.
+  destruct (walk (data_fuel a) (data_fuel a) fmt a p []) as [es|e|k]; cbn [bind]; try discriminate.
+  intros E. injection E as <-. reflexivity.
+Qed.
+Theorem from_bytes_is_clean : forall fmt e f t, TextFormat.from_bytes fmt e f = Ok t -> t_dirty t = false.
+Proof.
+  intros fmt e f t. unfold TextFormat.from_bytes. destruct (BinFormat.from_bytes e f) as [a|er|k]; cbn [bind]; try discriminate.
+  apply from_archive_is_clean.
+Qed.
